@@ -52,19 +52,21 @@ type world struct {
 	epochs   map[uint64]int // epoch -> how many queries observed it (outcome)
 }
 
-func (w *world) bad(s string) { w.viol[s] = true }
+func (w *world) bad(s string) { sched.Own(func() { w.viol[s] = true }) }
 
 var allSeries = []uint64{1, 2}
 
 func (w *world) query(name string, holds int) {
 	v := w.t.Pin()
 	if v == nil {
-		if !w.closed {
-			w.bad(name + ": no snapshot although the table holds data and is not closed")
-		}
+		sched.Own(func() {
+			if !w.closed {
+				w.bad(name + ": no snapshot although the table holds data and is not closed")
+			}
+		})
 		return
 	}
-	w.pins++
+	sched.Own(func() { w.pins++ })
 	ep := v.Epoch()
 	for i := 0; i < holds; i++ {
 		sched.Yield(name + ":hold")
@@ -92,7 +94,7 @@ func (w *world) query(name string, holds int) {
 			}
 		})
 	}
-	w.epochs[ep]++
+	sched.Own(func() { w.epochs[ep]++ })
 	v.Unpin()
 }
 
@@ -108,20 +110,25 @@ func firstLine(s string) string {
 
 // introducer plays the single goroutine that serialises all snapshot transitions.
 func (w *world) introducer() {
-	cur := w.expected[w.t.NextEpoch()-1]
-	// 1. a new batch becomes visible atomically
-	w.expected[w.t.NextEpoch()] = union(cur, batch(400))
+	var cur rows
+	sched.Own(func() {
+		cur = w.expected[w.t.NextEpoch()-1]
+		// 1. a new batch becomes visible atomically
+		w.expected[w.t.NextEpoch()] = union(cur, batch(400))
+	})
 	w.t.IntroducePart(w.intro)
 	cur = union(cur, batch(400))
 	// 2. flush: memory part p3 is replaced by its file part (files produced beforehand, see template)
-	w.expected[w.t.NextEpoch()] = cur
+	sched.Own(func() { w.expected[w.t.NextEpoch()] = cur })
 	w.t.FlushB(w.flush)
 	w.t.GC()
 	// 3. merge: file parts p1,p2 are replaced by the merged part
-	for _, id := range w.merge.IDs {
-		w.replaced[w.t.PartDir(id)] = true
-	}
-	w.expected[w.t.NextEpoch()] = cur
+	sched.Own(func() {
+		for _, id := range w.merge.IDs {
+			w.replaced[w.t.PartDir(id)] = true
+		}
+		w.expected[w.t.NextEpoch()] = cur
+	})
 	w.t.MergeB(w.merge)
 	w.t.GC()
 }
@@ -165,7 +172,7 @@ func measureSetup(sc scenario, seq *int) sched.Harness {
 		case "introducer":
 			threads = append(threads, w.introducer)
 		case "close":
-			threads = append(threads, func() { w.closed = true; w.t.Close() })
+			threads = append(threads, func() { sched.Own(func() { w.closed = true }); w.t.Close() })
 		default:
 			panic("unknown role " + r)
 		}
@@ -304,7 +311,7 @@ func copyTree(src, dst string) error {
 }
 
 func init() {
-	register(family{Name: "measure", Setup: measureSetup, Scenarios: []scenario{
+	register(family{Name: "measure", RaceOK: true, Setup: measureSetup, Scenarios: []scenario{
 		{Name: "A", Roles: []string{"query", "introducer", "query"}},
 		{Name: "B", Roles: []string{"longquery", "introducer", "query"}, ThoroughOnly: true},
 		{Name: "C", Roles: []string{"query", "longquery", "close"}},
